@@ -986,3 +986,10 @@ Proof.
   split; [vm_compute; reflexivity|]. split; [|vm_compute; reflexivity].
   eexists. split; [vm_compute; reflexivity|]. split; vm_compute; reflexivity.
 Qed.
+
+(** ** Sequences: the i-th kept result depends on the i-th input only *)
+Lemma seq_independent codec k kw :
+  (forall ms i m, nth_error ms i = Some m -> nth_error (seq_to codec k ms) i = Some (to_packet_any codec k m))
+  /\ (forall ps i p, nth_error ps i = Some p -> nth_error (seq_from codec k kw ps) i = Some (from_packet_any codec k kw p))
+  /\ (forall ps i p, nth_error ps i = Some p -> nth_error (seq_convert ps) i = Some (hub_convert p)).
+Proof. repeat split; intros; unfold seq_to, seq_from, seq_convert; apply map_nth_error; assumption. Qed.
